@@ -248,6 +248,29 @@ def check(program: Program, run: Run) -> None:
     run.extra["class_kinds"] = class_kind
     sub_readers = {c.qualname for c in terms if not c.is_subclass_of(sel) and reads_subcriterion(program, c)}
     run.extra["classes_reading_subcriterion"] = sorted(sub_readers)
+    # a class *honours* the flag only if, given subcriterion=True, every render path is bracketed -- whatever the other
+    # flags it receives say (a parent hands its own with_alias down to its operands, so both values reach the child)
+    honours = set()
+    for qn in sorted(sub_readers):
+        c = program.cls(qn)
+        allw = True
+        for wa in (False, True):
+            sk, _ = render(program, c, attrs={"alias": Const(None)}, ctx=CtxV.incoming().with_(with_alias=Const(wa), subcriterion=Const(True)))
+            for flat in paths(sk):
+                flat = [p for p in flat if not (isinstance(p, Lit) and not p.text)]
+                w = bool(flat) and isinstance(flat[0], Lit) and flat[0].text.startswith("(") and isinstance(flat[-1], Lit) and flat[-1].text.endswith(")")
+                if not w:
+                    allw = False
+                    run.ob("C06 a class reading ctx.subcriterion brackets itself on every path when the flag is set", f"{qn}:with_alias={wa}", False,
+                           detail="path: " + "".join(p.text if isinstance(p, Lit) else "{}" for p in flat)[:100], where=c.resolve("get_sql").loc())
+                    run.finding(f"C06/subcriterion-not-honoured:{c.resolve('get_sql').cls.qualname}:with_alias={wa}",
+                                f"{qn}.get_sql receives subcriterion=True (its parent decided brackets are needed) but has a render path without the brackets when with_alias={wa}: "
+                                "the nested group loses its parentheses in positions rendered with that flag (e.g. the select list)", where=c.resolve("get_sql").loc(), rule="regroup")
+                    break
+        if allw:
+            honours.add(qn)
+            run.ob("C06 a class reading ctx.subcriterion brackets itself on every path when the flag is set", qn, True, where=c.resolve("get_sql").loc())
+    run.extra["classes_honouring_subcriterion"] = sorted(honours)
 
     # ---- step 2+3: the table
     cells = 0
@@ -277,7 +300,7 @@ def check(program: Program, run: Run) -> None:
                     if sc is None:
                         raise AnalysisError(f"anchor vanished: slot {pname}.{slot} not found in skeleton")
                     wrapped, sub, bt, at = sc
-                    eff_sub = sub == Const(True) and child.cls.qualname in sub_readers
+                    eff_sub = sub == Const(True) and child.cls.qualname in honours
                     is_wrapped = wrapped or eff_sub
                     reason = needs_parens(plevel, pop, side, k)
                     cells += 1
